@@ -152,6 +152,17 @@ func (in *Interp) clearCData(p *Ptr) {
 	}
 }
 
+// hasEmptyCData: some CDATA node below p holds no characters.
+func (in *Interp) hasEmptyCData(p *Ptr) bool {
+	e := in.viewElem(p)
+	for _, c := range e.Children {
+		if (c.Kind == "elem" && in.hasEmptyCData(c.Elem)) || (c.Kind == "text" && c.CData && c.Text.Const && c.Text.Str == "") {
+			return true
+		}
+	}
+	return false
+}
+
 // hasCData: some character data below p is held as a CDATA node.
 func (in *Interp) hasCData(p *Ptr) bool {
 	e := in.viewElem(p)
@@ -338,7 +349,11 @@ func init() {
 		content := in.stringOfBytes(g.Ghost["data"].(*SliceV))
 		in.noteList("screened", content.S)
 		in.event("rtvalidator.Validate")
-		in.X.noteAssumption("xml-roundtrip-validator.Validate: may reject any document (nondeterministic), result recorded per bytes")
+		in.X.noteAssumption("xml-roundtrip-validator.Validate: may reject any document (nondeterministic), result recorded per bytes; v0.1.0 always rejects a document containing an empty CDATA section")
+		if d := in.lookupDoc(content); d != nil && d.Root != nil && in.hasEmptyCData(d.Root) {
+			in.event("rtvalidator rejects the empty CDATA section")
+			return in.opaqueError("rtvalidator-empty-cdata")
+		}
 		if in.Choose(2) == 1 {
 			in.Ghost["choice:rtvalidator.rejects"] = 1
 			return in.opaqueError("rtvalidator")
